@@ -265,6 +265,8 @@ def gen_script(rng, max_agents=5, max_t=8, allow_big=False):
     if rng.random() < 0.3:
         sc["npFlags"] = True                  # done flags are numpy.bool_ objects
     if rng.random() < 0.3:
+        sc["rosterInPlace"] = True            # the nominated roster is one list edited in place (see StubSim)
+    if rng.random() < 0.3:
         sc["scribble"] = True                 # returned dictionaries are emptied by the caller (see Session.apply)
     if not all(learning) and rng.random() < 0.4:
         # non-learning entities that only observe (1) or only act (2): not agents in the managers' sense
